@@ -247,6 +247,19 @@ class Rope:
         return f"Rope({list(self.chunks)!r})"
 
 
+class LoweredSeq:
+    """s.lower() of a symbolic string: element i is the lower-cased code point of seq[i] (ASCII letters)."""
+
+    def __init__(self, seq):
+        self.seq = seq
+        self.length = seq.length
+        self.kind = "str"
+
+    def at(self, i):
+        c = self.seq.at(i)
+        return z3.If(z3.And(c >= 65, c <= 90), c + 32, c)
+
+
 class HexStr:
     """hex(v) of a symbolic int; only its length is ever used by the code under verification."""
 
